@@ -23,3 +23,12 @@ package proof
 //@     && isNilIface(ret(call (signature.Suite).CanonicalizeDocument #1).1) && arg(call (signature.Suite).CanonicalizeDocument #1, 1) == any(document)
 //@     && isNilIface(ret(call (signature.Suite).CanonicalizeDocument #2).1)
 //@   ensures [success-only-if-verified] isNilIface(result) ==> did(call (jws.Verifier).Verify #1) && isNilIface(ret(call (jws.Verifier).Verify #1))
+
+// ---- C01 / C17: what is signed (and verified) of a proof is EVERYTHING its JSON rendering has except the signature value:
+// every member of the rendering other than jws / signature / proofValue (nonce, challenge, domain, expires, ... and members a
+// later version of the struct may add) is in the map that is canonicalised - nothing is picked by hand ----
+//@ func (LDProof).asCanonicalizableMap
+//@   prop C01 C17
+//@   loop 1 invariant forall n string :: (visited(1, n) && n in asMap && n != "jws" && n != "signature" && n != "proofValue") ==> n in proofWithoutSignature
+//@   ensures [everything-but-the-signature-value-is-signed] isNilIface(result.1) ==> did(call (LDProof).asMap #1) && isNilIface(ret(call (LDProof).asMap #1).1)
+//@        && (forall n string :: (n in asMap && n != "jws" && n != "signature" && n != "proofValue") ==> n in result.0)
